@@ -17,7 +17,7 @@ JsonBodies == {"ok", "empty", "notJson", "jsonNull", "jsonArray", "jsonNumber", 
                "levelsNull", "levelsObject", "svnOutOfRange", "svnNegative", "svnString", "componentsShort", "componentsLong",
                "statusUnknown", "statusNumber", "dateGarbage", "hexOdd", "hexNotHex", "deeplyNested", "truncated", "utf8Garbage",
                "identitiesNull", "identityLevelsNull", "identityIdsOdd", "identityIdTypes", "maskShort", "maskLong"}
-CrlBodies == {"ok", "empty", "garbage", "truncated", "pemInsteadOfDer", "certInsteadOfCrl", "hugeJunk"}
+CrlBodies == {"ok", "empty", "garbage", "truncated", "pemInsteadOfDer", "certInsteadOfCrl", "hugeJunk", "noNumber"}
 BodiesOf(ep) == IF ep \in {"tcb", "qe"} THEN JsonBodies ELSE CrlBodies
 
 \* a case deviates on one endpoint (header or body) or on two endpoints
